@@ -1201,6 +1201,9 @@ class BareServer():
                 steward.requestant.parse()
 
                 if steward.requestant.ended:
+                    if steward.requestant.errored:  # malformed request so give up
+                        self.closeConnection(ca)
+                        continue
                     steward.requestant.dictify()
                     logger.info("Parsed Request: %s %s %s",
                                 steward.requestant.method,
